@@ -312,7 +312,7 @@ def run_harnesses(group, feature, names, timeout_s, extra_flags=(), fast=True, m
         cmd = list(base)
         for f in full:
             cmd += ['--harness', f]
-        env = dict(os.environ, CARGO_NET_OFFLINE='true')
+        env = dict(os.environ, CARGO_NET_OFFLINE='true', RUSTFLAGS=(os.environ.get('RUSTFLAGS', '') + ' --cfg gb_dynarec_verif').strip())
         t0 = time.time()
         logp = os.path.join(BUILD, 'kani_%s.log' % group)
         with open(logp, 'w') as lf:
@@ -331,11 +331,11 @@ def run_harnesses(group, feature, names, timeout_s, extra_flags=(), fast=True, m
     return dict((n, cache.get(n, {'status': 'missing', 'failed': [], 'time_s': 0, 'cover_ok': None, 'raw': ''})) for n in names), info
 
 
-def playback(feature, full_name, timeout_s=600):
+def playback(feature, full_name, timeout_s=600, fast=True):
     """Re-run one failing harness with concrete playback and return the ordered kani::any() values (hex strings)."""
-    cmd = ['cargo', 'kani', '--features', feature, '-Z', 'stubbing', '-Z', 'concrete-playback', '--concrete-playback=print'] + FAST + \
+    cmd = ['cargo', 'kani', '--features', feature, '-Z', 'stubbing', '-Z', 'concrete-playback', '--concrete-playback=print'] + (FAST if fast else ['-Z', 'unstable-options']) + \
           ['--harness-timeout', '%ds' % timeout_s, '--exact', '--harness', full_name]
-    env = dict(os.environ, CARGO_NET_OFFLINE='true')
+    env = dict(os.environ, CARGO_NET_OFFLINE='true', RUSTFLAGS=(os.environ.get('RUSTFLAGS', '') + ' --cfg gb_dynarec_verif').strip())
     try:
         p = subprocess.run(cmd, cwd=KDIR, capture_output=True, text=True, env=env, timeout=timeout_s + 300)
     except subprocess.TimeoutExpired:
